@@ -47,7 +47,7 @@ impl Client {
                 self.buf.drain(..n);
                 return v;
             }
-            match tokio::time::timeout(std::time::Duration::from_secs(10), self.io.read(&mut tmp)).await {
+            match tokio::time::timeout(std::time::Duration::from_secs(30), self.io.read(&mut tmp)).await {
                 Ok(Ok(0)) => return RespValue::err("IOERR connection closed"),
                 Ok(Ok(n)) => self.buf.extend_from_slice(&tmp[..n]),
                 Ok(Err(_)) => return RespValue::err("IOERR read"),
@@ -265,7 +265,7 @@ async fn wcase(run: usize, gen: &mut Gen, out: &mut Out) {
     }
     match kind {
         "ttl" | "ttl_long" => {
-            let ttl: u64 = if kind == "ttl" { [25u64, 40, 60][gen.rng.gen_range(0..3)] } else { 600_000 };
+            let ttl: u64 = if kind == "ttl" { [60u64, 100, 150][gen.rng.gen_range(0..3)] } else { 600_000 };
             let how = gen.rng.gen_range(0..3);
             match how {
                 0 => { bc.call(&vec![b("SET"), b("w"), b("v0"), b("PX"), b(&ttl.to_string())]).await; }
@@ -273,6 +273,14 @@ async fn wcase(run: usize, gen: &mut Gen, out: &mut Out) {
                 _ => { bc.call(&vec![b("RPUSH"), b("w"), b("a")]).await; bc.call(&vec![b("PEXPIRE"), b("w"), b(&ttl.to_string())]).await; }
             }
             a.call(&wargv).await;
+            // the case presupposes that the key was still alive when WATCH ran: if the host stalled for longer than the TTL
+            // between the SET and the WATCH, the snapshot is of a missing key and nothing changes afterwards - not a case
+            let alive_after_watch = matches!(bc.call(&vec![b("PTTL"), b("w")]).await, RespValue::Integer(n) if n > 0);
+            if !alive_after_watch {
+                out.emit(&json!({"t": "wcase", "run": run, "kind": "skipped", "changed": false, "exec": {"t": "array", "a": [], "b": []}, "applied": true, "applied_all": true,
+                                 "detail": {"why": "the key had expired before WATCH ran (host stall)"}}));
+                return;
+            }
             let between = gen.rng.gen_range(0..4);
             if between == 3 {
                 a.call(&vec![b("MULTI")]).await;
